@@ -115,14 +115,14 @@ def harness_path(h):
 # running kani
 # ------------------------------------------------------------------------------------------------
 
-def run_group(cmd, cwd, timeout, logf, env=None):
+def run_group(cmd, cwd, timeout, logf, env=None, mem_kb=None):
     """Run cmd in its own process group under a memory limit; kill the whole group on timeout."""
     e = dict(os.environ)
     e["CARGO_NET_OFFLINE"] = "true"
     e.pop("RUSTFLAGS", None)
     if env:
         e.update(env)
-    shell = "ulimit -v %d; exec %s" % (MEM_KB, " ".join("'%s'" % c.replace("'", "'\\''") for c in cmd))
+    shell = "ulimit -v %d; exec %s" % (mem_kb or MEM_KB, " ".join("'%s'" % c.replace("'", "'\\''") for c in cmd))
     t0 = time.time()
     with open(logf, "w") as lf:
         p = subprocess.Popen(["bash", "-c", shell], cwd=cwd, stdout=lf, stderr=subprocess.STDOUT,
@@ -291,7 +291,7 @@ def run_harness(h, keep=False, logdir=None):
             else:
                 res["status"] = "CANDIDATE"
                 logf2 = os.path.join(logdir, h["name"] + ".cex.log")
-                run_group(kani_cmd(h, with_playback=True), crate, 3 * h.get("timeout", 600), logf2)
+                run_group(kani_cmd(h, with_playback=True), crate, 3 * h.get("timeout", 600), logf2, mem_kb=2 * MEM_KB)
                 res["playback_tests"] = parse_log(logf2)["playback_tests"]
                 res["_crate"] = crate
                 res["_root"] = root
